@@ -626,6 +626,30 @@ static void eq_case(Rng & rng, const std::string & tier, long sub) {
     int steps = tier == "thorough" ? 120 : 50;
     double gammas[3] = {0.5, 0.75, 0.875}, alphas[3] = {0.5, 0.25, 1.0};
     double gamma = gammas[rng.below(3)], alpha = alphas[rng.below(3)];
+    if (sub % 6 == 5) { // CooperativeQLearning with several random bases, replayed by the Lean model
+        DDNCase c; c.S = randSpace(rng, 3, 3, 12); c.A = randSpace(rng, 3, 2, 8);
+        makeDDN(rng, c, false);
+        std::vector<std::vector<size_t>> doms; int nd = (int)rng.range(1, 3);
+        for (int d = 0; d < nd; ++d) doms.push_back(randTag(rng, c.S.size()));
+        FM_::CooperativeQLearning cq(*c.g, doms, gamma, alpha);
+        Line l; l << "C14" << "coopq"; l.nats(c.S); l.nats(c.A);
+        const auto & pss = c.g->getParentSets(); l << (size_t)pss.size();
+        for (auto & ps : pss) { l.nats(ps.agents); l << (size_t)ps.features.size(); for (auto & f : ps.features) l.nats(f); }
+        l << (size_t)doms.size(); for (auto & d : doms) l.nats(d);
+        l << alpha << gamma;
+        F::FactoredMatrix2D q0 = cq.getQFunction();
+        size_t nS = F::factorSpace(c.S), nA = F::factorSpace(c.A);
+        int hs = 25; l << (size_t)hs;
+        for (int t = 0; t < hs; ++t) {
+            auto s = F::toFactors(c.S, rng.below(nS)), s1 = F::toFactors(c.S, rng.below(nS)); auto a = F::toFactors(c.A, rng.below(nA));
+            Vector rew((long)c.A.size()); for (long k = 0; k < rew.size(); ++k) rew[k] = dy(rng);
+            auto a1 = cq.stepUpdateQ(s, a, s1, rew);
+            l.nats(s); l.nats(a); l.nats(s1); l.nats(a1); l.nums(rew);
+        }
+        l << "|"; putFM(l, q0); putFM(l, cq.getQFunction()); l.emit();
+        ::printf("#stat coopq_multi 1\n");
+        return;
+    }
     switch (sub % 5) {
     case 0: { // JointActionLearner: joint Q == flat QLearning on toIndex(A, a); single agent: singleQ == jointQ
         size_t S = (size_t)rng.range(1, 4);
